@@ -203,19 +203,22 @@ func saveState(lastMessages map[string]interface{}) {
 	}
 	verifC16Point("save.afterTmp")
 
-	// Move old config file to backup and new file to standard config name.
+	// Keep the old config file as a backup and put the new file under the standard config name.
+	// The standard file must never be missing, not even for an instant: if Dastard is killed at
+	// that moment, the next start-up finds no config file and creates an empty one, losing all
+	// settings. So the backup is a hard link to the old file (not a rename of it), and the
+	// standard file is replaced by the new one in a single atomic rename.
 	err = os.Remove(bakname)
 	if err != nil && !os.IsNotExist(err) {
 		log.Println("Could not remove backup file ", bakname, " even though it exists: ", err)
 		return
 	}
 	verifC16Point("save.afterRemoveBak")
-	err = os.Rename(mainname, bakname)
+	err = os.Link(mainname, bakname)
 	if err != nil && !os.IsNotExist(err) {
 		log.Println("Could not save backup file: ", err)
-		return
 	}
-	verifC16Point("save.afterRenameBak")
+	verifC16Point("save.afterLinkBak")
 	err = os.Rename(tmpname, mainname)
 	if err != nil {
 		log.Printf("Could not update dastard config file %s", mainname)
